@@ -451,14 +451,14 @@ pub fn spec_for(prop: &str) -> Option<SeqSpec> {
                 single_slot: true,
                 ..Default::default()
             },
-            rule: "generated: single class, single slot, 2-4 trees, base order only: exhaust/allocate through the slot, free generated subsets through the slot or without a slot, allocate again until failure; plus an aimed family freeing exactly 1..3 frames without slot into the slot's own reserved tree. Oracle: a base-order allocation returns Memory only if the model has no free frame. Non-trivial = a history where a failing or succeeding allocation happened while the only free frames were ones freed without naming the slot; distinct by case hash.",
+            rule: "generated: allocators with exactly one local slot (single class; simple and movable classings where the slot's class is the default class or below it; class ids with gaps), FreeAll or AllocAll, 2-4 trees incl. short last trees, base order and one class only: exhaust/allocate through the slot, free generated subsets (and, after AllocAll, arbitrary single frames) through the slot or without a slot, allocate again until failure; plus an aimed family freeing exactly 1..3 frames without slot into the slot's own reserved tree. Oracle: a base-order allocation returns Memory only if the model has no free frame. Non-trivial = a history where a failing or succeeding allocation happened while the only free frames were ones freed without naming the slot; distinct by case hash.",
             nontrivial: |_, o| o.feat("free_without_slot") > 0 && o.feat("exhaust") > 0,
             weights: || Weights {
                 get: 30,
                 get_target: 0,
                 put_held: 20,
                 put_part: 0,
-                put_arbitrary: 0,
+                put_arbitrary: 6,
                 put_cover: 0,
                 drain: 0,
                 exhaust: 12,
@@ -469,24 +469,48 @@ pub fn spec_for(prop: &str) -> Option<SeqSpec> {
                 ..Weights::base(1)
             },
             cfg: || {
-                (2..=4usize, 0..3usize, 0usize..70)
-                    .prop_map(|(t, k, d)| Config {
+                // exactly one slot in the whole allocator; the class that owns it may be the
+                // default class of the classing, below it (trees must be demoted) or the only one
+                let classes = prop_oneof![
+                    4 => Just(ClassKind::Single(1)),
+                    3 => Just(ClassKind::Simple([1, 0])),
+                    2 => Just(ClassKind::Simple([0, 1])),
+                    1 => Just(ClassKind::Movable([1, 0, 0])),
+                    1 => Just(ClassKind::Movable([0, 1, 0])),
+                    1 => Just(ClassKind::Movable([0, 0, 1])),
+                    1 => Just(ClassKind::SimpleIds([1, 0], [2, 5])),
+                ];
+                (
+                    2..=4usize,
+                    0..3usize,
+                    0usize..70,
+                    classes,
+                    prop_oneof![4 => Just(InitKind::FreeAll), 1 => Just(InitKind::AllocAll)],
+                )
+                    .prop_map(|(t, k, d, classes, init)| Config {
                         frames: match k {
                             0 => t * TREE_FRAMES,
                             1 => t * TREE_FRAMES - d * 7 % TREE_FRAMES,
                             _ => (t - 1) * TREE_FRAMES + llfree::HUGE_FRAMES + d,
                         },
-                        init: InitKind::FreeAll,
-                        classes: ClassKind::Single(1),
+                        init,
+                        classes,
                     })
                     .boxed()
             },
             enum_cfgs: || {
-                vec![Config {
-                    frames: 2 * TREE_FRAMES,
-                    init: InitKind::FreeAll,
-                    classes: ClassKind::Single(1),
-                }]
+                vec![
+                    Config {
+                        frames: 2 * TREE_FRAMES,
+                        init: InitKind::FreeAll,
+                        classes: ClassKind::Single(1),
+                    },
+                    Config {
+                        frames: TREE_FRAMES + llfree::HUGE_FRAMES + 36,
+                        init: InitKind::FreeAll,
+                        classes: ClassKind::Simple([1, 0]),
+                    },
+                ]
             },
             enum_alphabet: || {
                 vec![
